@@ -1262,56 +1262,131 @@ fn gvar_oracle(glyphs: &[GlyphIn], axis_count: u16, bytes: &[u8], st: &mut Stats
     }
 }
 
+/// one gvar table: build, read back (oracle), hand-parse (sizes, per-tuple bytes -> model)
+fn process_gvar_font(glyphs: &[GlyphIn], axis_count: usize, key: &str, st: &mut Stats, cw: &mut CaseWriter, model_limit: usize) {
+    st.evaluations += 1;
+    st.count("gvar.fonts");
+    let bytes = match build_gvar(glyphs, axis_count as u16) {
+        Ok(Ok(b)) => b,
+        other => {
+            st.oracle_failure(json!({"key": key, "what": "Gvar::new / dump_table failed on well-formed input", "res": format!("{:?}", other.map(|r| r.map(|b| b.len())))}));
+            return;
+        }
+    };
+    gvar_oracle(glyphs, axis_count as u16, &bytes, st, key);
+    let b2 = bytes.clone();
+    let Ok(Some((long, parsed))) = catch(move || parse_gvar(&b2)) else {
+        st.oracle_failure(json!({"key": key, "what": "hand parser cannot walk the compiled gvar (sizes/offsets inconsistent)"}));
+        return;
+    };
+    st.count(if long { "gvar.long_offsets" } else { "gvar.short_offsets" });
+    for (gi, (g, p)) in glyphs.iter().zip(&parsed).enumerate() {
+        let Some(p) = p else {
+            if !g.tuples.is_empty() {
+                st.oracle_failure(json!({"key": key, "glyph": gi, "what": "no data for a glyph with tuples"}));
+            }
+            continue;
+        };
+        // sizes: variation_data_size fields account for the whole glyph record (up to 1 byte of padding)
+        if p.total_len < p.accounted || p.total_len - p.accounted > 1 {
+            st.oracle_failure(json!({"key": key, "glyph": gi, "what": "computed sizes do not add up to the glyph record length", "len": p.total_len, "accounted": p.accounted}));
+        }
+        if p.shared.is_some() {
+            st.count("gvar.glyph_shared_points");
+        }
+        // every tuple's variation_data_size must delimit exactly its point numbers + x deltas + y deltas
+        let shared_count: Option<usize> = p.shared.as_ref().and_then(|sb| read_points(sb).ok()).map(|(all, pts, _)| if all { g.coords.len() } else { pts.len() });
+        for (ti, t) in p.tuples.iter().enumerate() {
+            st.count(if t.private { "gvar.tuple_private_points" } else { "gvar.tuple_uses_shared_or_all" });
+            let (npts, rest) = if t.private {
+                match read_points(&t.bytes) {
+                    Ok((all, pts, consumed)) => (if all { g.coords.len() } else { pts.len() }, t.bytes[consumed.min(t.bytes.len())..].to_vec()),
+                    Err(_) => (usize::MAX, vec![]),
+                }
+            } else {
+                (shared_count.unwrap_or(g.coords.len()), t.bytes.clone())
+            };
+            let ndeltas = read_deltas_all(&rest).map(|d| d.len()).unwrap_or(usize::MAX);
+            // (a tuple without any required delta is written densely since the F-C10-1 fix)
+            if npts == usize::MAX || ndeltas != 2 * npts {
+                st.oracle_failure(json!({"key": format!("{}:glyph{}:tuple{}:size", key, gi, ti), "what": "variation_data_size does not delimit point numbers + 2 x point-count deltas",
+                    "size": t.size, "points": npts as u64, "deltas_in_data": ndeltas as u64}));
+            }
+            match npts {
+                127 | 128 | 129 | 255 | 256 | 257 | 63 | 64 | 65 => st.count(&format!("gvar.tuple_with_{}_points", npts)),
+                _ => {}
+            }
+        }
+        st.nontrivial(&format!("{}:{}", key, gi));
+        if g.coords.len() <= model_limit {
+            st.count("gvar.model_cases");
+            cw.push(format!(
+                "CGlyph {} {} {}",
+                clist(g.tuples.iter(), |t| cgdeltas(&t.deltas)),
+                copt(p.shared.as_ref().map(|s| cbytes(s))),
+                clist(p.tuples.iter(), |t| format!("({}, {}, {})", cbool(t.private), t.size, cbytes(&t.bytes)))
+            ));
+        }
+    }
+}
+
+/// deterministic boundary glyphs: a sparse tuple referencing EXACTLY k points (k at the 1/2-byte count boundary 127/128/129,
+/// the run caps 63/64/65 and 255/256/257, and 1) out of a larger glyph, with private and with shared point numbers, always
+/// followed by another tuple. All points lie on a line and the wanted deltas are linear in x, first and last point required,
+/// so the specification's inference reproduces every omitted delta exactly (tolerance 0).
+fn gvar_boundary_part(st: &mut Stats, cw: &mut CaseWriter) {
+    for &k in &[1usize, 2, 63, 64, 65, 127, 128, 129, 130, 255, 256, 257] {
+        for shared in [false, true] {
+            for wide_gaps in [false, true] {
+                let n: usize = if k >= 200 { 760 } else { 330 };
+                let step: i64 = if wide_gaps { 40 } else { 10 };
+                let mut coords: Vec<(i64, i64)> = (0..n).map(|i| (i as i64 * step, 0)).collect();
+                coords.extend([(0, 0), (500, 0), (0, 0), (0, 0)]);
+                let mut ends = vec![n - 1];
+                ends.extend([n, n + 1, n + 2, n + 3]);
+                // k required indices spread over the contour, first and last included (k = 1: only the first)
+                let req_of = |k: usize| -> Vec<usize> {
+                    if k == 1 {
+                        vec![0]
+                    } else {
+                        (0..k).map(|j| j * (n - 1) / (k - 1)).collect()
+                    }
+                };
+                let mk = |k: usize, mult: i64, peak: i16| -> TupleIn {
+                    let req = req_of(k);
+                    let raw: Vec<(i64, i64)> = (0..n + 4)
+                        .map(|i| if i >= n { (0, 0) } else if k == 1 { (7 * mult, 0) } else { (i as i64 * mult, 0) })
+                        .collect();
+                    let deltas = raw
+                        .iter()
+                        .enumerate()
+                        .map(|(i, d)| if req.contains(&i) { GlyphDelta::required(d.0 as i16, d.1 as i16) } else { GlyphDelta::optional(d.0 as i16, d.1 as i16) })
+                        .collect();
+                    TupleIn { tents: vec![(peak, None)], raw, deltas, tol: (0, 1) }
+                };
+                let mut tuples = vec![mk(k, 1, 16384)];
+                if shared {
+                    tuples.push(mk(k, 2, 8192)); // same point set -> shared point numbers
+                }
+                tuples.push(mk(3, 3, -16384)); // a following tuple with its own private point set
+                let g = GlyphIn { coords, ends, tuples };
+                let key = format!("gvar:boundary:k{}:shared{}:wide{}", k, shared, wide_gaps);
+                st.count("gvar.boundary_fonts");
+                process_gvar_font(&[g], 1, &key, st, cw, if wide_gaps { 0 } else { 1000 });
+            }
+        }
+    }
+}
+
 fn gvar_part(rng: &mut Rng, st: &mut Stats, cw: &mut CaseWriter, thorough: bool) {
+    gvar_boundary_part(st, cw);
     let nfonts = if thorough { 1500 } else { 220 };
     for fi in 0..nfonts {
         let axis_count = rng.range(1, 3) as usize;
         let nglyphs = rng.range(1, 5) as usize;
         let glyphs: Vec<GlyphIn> = (0..nglyphs).map(|_| random_glyph(rng, axis_count, false)).collect();
         let key = format!("gvar:seed-font-{}", fi);
-        st.evaluations += 1;
-        st.count("gvar.fonts");
-        let bytes = match build_gvar(&glyphs, axis_count as u16) {
-            Ok(Ok(b)) => b,
-            other => {
-                st.oracle_failure(json!({"key": key, "what": "Gvar::new / dump_table failed on well-formed input", "res": format!("{:?}", other.map(|r| r.map(|b| b.len())))}));
-                continue;
-            }
-        };
-        gvar_oracle(&glyphs, axis_count as u16, &bytes, st, &key);
-        let Some((long, parsed)) = parse_gvar(&bytes) else {
-            st.oracle_failure(json!({"key": key, "what": "hand parser cannot walk the compiled gvar (sizes/offsets inconsistent)"}));
-            continue;
-        };
-        st.count(if long { "gvar.long_offsets" } else { "gvar.short_offsets" });
-        for (gi, (g, p)) in glyphs.iter().zip(&parsed).enumerate() {
-            let Some(p) = p else {
-                if !g.tuples.is_empty() {
-                    st.oracle_failure(json!({"key": key, "glyph": gi, "what": "no data for a glyph with tuples"}));
-                }
-                continue;
-            };
-            // sizes: variation_data_size fields account for the whole glyph record (up to 1 byte of padding)
-            if p.total_len < p.accounted || p.total_len - p.accounted > 1 {
-                st.oracle_failure(json!({"key": key, "glyph": gi, "what": "computed sizes do not add up to the glyph record length", "len": p.total_len, "accounted": p.accounted}));
-            }
-            if p.shared.is_some() {
-                st.count("gvar.glyph_shared_points");
-            }
-            for t in &p.tuples {
-                st.count(if t.private { "gvar.tuple_private_points" } else { "gvar.tuple_uses_shared_or_all" });
-            }
-            st.nontrivial(&format!("{}:{}", key, gi));
-            if g.coords.len() <= 40 {
-                st.count("gvar.model_cases");
-                cw.push(format!(
-                    "CGlyph {} {} {}",
-                    clist(g.tuples.iter(), |t| cgdeltas(&t.deltas)),
-                    copt(p.shared.as_ref().map(|s| cbytes(s))),
-                    clist(p.tuples.iter(), |t| format!("({}, {}, {})", cbool(t.private), t.size, cbytes(&t.bytes)))
-                ));
-            }
-        }
+        process_gvar_font(&glyphs, axis_count, &key, st, cw, 40);
     }
     // long offsets: enough glyph data to exceed 2 * 65535 bytes
     {
